@@ -141,9 +141,11 @@ prop('C03',
           'params': {'quick': {'MaxC': 2, 'MaxK': 3}, 'thorough': {'MaxC': 3, 'MaxK': 4}}, 'covers': ['second-growth'], 'opts': {'pool_mode': 'all'}},
          {'name': 'C03_Twice', 'types': {'quick': ['int8', 'float64'], 'thorough': ALL},
           'params': {'quick': {'MaxC': 2, 'MaxK': 2, 'MaxKS': 2}, 'thorough': {'MaxC': 3, 'MaxK': 3, 'MaxKS': 3}}},
+         {'name': 'C03_AppendBig', 'types': {'quick': ['int16', 'float64'], 'thorough': QUICK_T},
+          'params': {'quick': {'MaxC': 3, 'BigFrames': 300}, 'thorough': {'MaxC': 4, 'BigFrames': 1000}}, 'covers': ['in-place', 'grown']},
      ],
-     bounds={'quick': 'destination: every window of a buffer with 1..3 channels and 0..3 frames; source: every window of a second buffer with 0..2 frames (other storage) or the destination itself; growth capacity = go1.23 growslice model; sample values and witness positions symbolic',
-             'thorough': 'destination 1..4 channels, 0..4 frames; source 0..4 frames; all 13 element types'},
+     bounds={'quick': 'destination: every window of a buffer with 1..3 channels and 0..3 frames; source: every window of a second buffer with 0..2 frames (other storage) or the destination itself; growth capacity = go1.23 growslice model; sample values and witness positions symbolic; large regime (C03_AppendBig): a 300-frame destination (full or with 37 spare frames), 1..3 channels, source of 1, 75, 150, 225, 299, 300, 400 or 601 frames, the last destination and last source sample symbolic',
+             'thorough': 'destination 1..4 channels, 0..4 frames; source 0..4 frames; all 13 element types; large regime: 1000-frame destination, 1..4 channels, same eight source fractions'},
      outside=['sources overlapping the destination spare capacity (excluded by the property, other than self-append)', 'capacities chosen by Go releases other than the modelled growslice', 'larger shapes'])
 
 HUGE = 65543
@@ -191,12 +193,12 @@ prop('C14',
 
 prop('C15', opts={'abstract_fp': True},
      harnesses=[{'name': 'C15_' + fn, 'types': {'quick': conv_pairs(fn, 1), 'thorough': conv_pairs(fn, 2)},
-                 'params': {'quick': {'MaxC15': 3, 'MaxK15': 1}, 'thorough': {'MaxC15': 4, 'MaxK15': 2}}} for fn in CONVS] +
-     [{'name': 'C15_Append', 'types': {'quick': ['int8', 'float64'], 'thorough': QUICK_T}, 'params': {'quick': {'MaxC15': 3, 'MaxK15': 1}, 'thorough': {'MaxC15': 4, 'MaxK15': 2}}},
-      {'name': 'C15_ReadStriped', 'types': {'quick': PAIRS_Q[:3], 'thorough': PAIRS_Q}, 'params': {'quick': {'MaxC15': 3, 'MaxK15': 1}, 'thorough': {'MaxC15': 4, 'MaxK15': 2}}},
-      {'name': 'C15_WriteStriped', 'types': {'quick': PAIRS_Q[:3], 'thorough': PAIRS_Q}, 'params': {'quick': {'MaxC15': 3, 'MaxK15': 1}, 'thorough': {'MaxC15': 4, 'MaxK15': 2}}},
+                 'params': {'quick': {'MaxC15': 4, 'MaxK15': 1}, 'thorough': {'MaxC15': 4, 'MaxK15': 2}}} for fn in CONVS] +
+     [{'name': 'C15_Append', 'types': {'quick': ['int8', 'float64'], 'thorough': QUICK_T}, 'params': {'quick': {'MaxC15': 4, 'MaxK15': 1}, 'thorough': {'MaxC15': 4, 'MaxK15': 2}}},
+      {'name': 'C15_ReadStriped', 'types': {'quick': PAIRS_Q[:3], 'thorough': PAIRS_Q}, 'params': {'quick': {'MaxC15': 4, 'MaxK15': 1}, 'thorough': {'MaxC15': 4, 'MaxK15': 2}}},
+      {'name': 'C15_WriteStriped', 'types': {'quick': PAIRS_Q[:3], 'thorough': PAIRS_Q}, 'params': {'quick': {'MaxC15': 4, 'MaxK15': 1}, 'thorough': {'MaxC15': 4, 'MaxK15': 2}}},
       {'name': 'C15_Put', 'types': {'quick': ['int8', 'float64'], 'thorough': QUICK_T}, 'opts': {'pool_mode': 'all'}}],
-     bounds={'quick': 'every ordered pair of different channel counts 1..3 (slice counts 0..4), 1 frame, recognisable (symbolic) contents, witness positions symbolic; one type pair per conversion',
+     bounds={'quick': 'every ordered pair of different channel counts 1..4 (slice counts 0..5), 1 frame, recognisable (symbolic) contents, witness positions symbolic; one type pair per conversion',
              'thorough': 'channel counts 1..4 (slice counts 0..5), 1..2 frames; 4 type pairs per conversion'},
      outside=['larger shapes'])
 
@@ -362,7 +364,7 @@ prop('C09', opts={'mode': 'value'},
      outside=['round trips for 64-bit sources and for 32-bit sources through float32 (not promised by the property)'])
 
 RATES = [8000, 11025, 16000, 22050, 32000, 44100, 48000, 88200, 96000, 176400, 192000, 352800, 384000,
-         2822400, 5644800, 1, 7, 60, 1000, 1000000, 44100.5, 0.5, 999983, 48000.25, 99999, 31999, 705600, 768000, 3]
+         2822400, 5644800, 1, 7, 60, 1000, 1000000, 44100.5, 0.5, 999983, 48000.25, 99999, 31999, 705600, 768000, 3, 12000, 24000, 64000, 500000, 123457, 2, 1.5, 250000.75]
 RATES_Q = [0, 5, 6, 14, 16, 19, 20, 22, 24]
 prop('C17', opts={'mode': 'value'},
      harnesses=[{'name': h, 'types': [()], 'params': {'quick': {'Rates': len(RATES)}, 'thorough': {'Rates': len(RATES)}},
